@@ -97,4 +97,5 @@ def rules(t):
     out.append(r)
     out.append(shared.ack_once(t, "C08.f"))
     out.append(shared.seq_unique(t, "C08.g"))
+    out.append(shared.range_algebra(t, "C08.h"))
     return out
